@@ -298,10 +298,38 @@ def check_footer(ctx, ht, rule, select=lambda f: True):
 
         def resolve(name, fm=fm, facts=facts, f=f):
             d = fm.resolve_def(name, facts)
-            if d is None:
+            augs = sorted([n for n in ast.walk(f.node) if isinstance(n, ast.AugAssign) and U(n.target) == name and
+                           isinstance(n.op, ast.Add)], key=lambda n: n.lineno)
+            if d is None or augs:
                 defs = [n for n in ast.walk(f.node) if isinstance(n, ast.Assign) and len(n.targets) == 1
                         and U(n.targets[0]) == name]
-                return defs[0].value if len(defs) == 1 else None
+                if len(defs) != 1:
+                    return None
+                expr = defs[0].value
+                # `x += more` (possibly under a gate held in a local flag): x = x + (more if gate else b'')
+                import copy
+
+                class _Sub(ast.NodeTransformer):
+                    def __init__(self, repl):
+                        self.repl = repl
+
+                    def visit_Name(self, node):
+                        return copy.deepcopy(self.repl) if node.id == name else node
+                for a_ in augs:
+                    # inside the increment the name still denotes the value accumulated so far
+                    term = _Sub(expr).visit(copy.deepcopy(a_.value))
+                    q = parent(a_)
+                    if isinstance(q, ast.If) and q is not f.node:
+                        t = q.test
+                        if isinstance(t, ast.Name):
+                            td = [n for n in ast.walk(f.node) if isinstance(n, ast.Assign) and U(n.targets[0]) == t.id]
+                            if len(td) == 1:
+                                t = td[0].value
+                        inbody = any(a_ is x for x in q.body)
+                        term = ast.IfExp(test=t, body=term if inbody else ast.Constant(value=b''),
+                                         orelse=ast.Constant(value=b'') if inbody else term)
+                    expr = ast.BinOp(left=expr, op=ast.Add(), right=term)
+                return ast.fix_missing_locations(expr)
             try:
                 return ast.parse(d, mode='eval').body
             except SyntaxError:
@@ -349,6 +377,29 @@ def check_footer(ctx, ht, rule, select=lambda f: True):
         else:
             ctx.ok(rule, f, label, 'bytes per array = reader stride %s' % {k: repr(v) for k, v in forms.items()},
                    sample={'written': {str(k): repr(v) for k, v in forms.items()}})
+        # reader-derived writers: the arrays must be the full grid arrays (the reader's memo holds the compacted,
+        # mask-filtered ones for an irregular source unless padding was requested)
+        if f.cls is not None and any(c.qualname == 'read.SgzReader' for c in f.cls.mro):
+            chain = FT._def_chain(f, call.args[0])
+            from_memo = any(isinstance(x, ast.Attribute) and x.attr == 'variant_headers' for e2 in chain for x in ast.walk(e2))
+            if from_memo:
+                loads = [c for c in ast.walk(f.node) if isinstance(c, ast.Call) and U(c.func).endswith('read_variant_headers')]
+                padded = any(any(k.arg == 'include_padding' and isinstance(k.value, ast.Constant) and k.value.value is True
+                                 for k in c.keywords) or (c.args and isinstance(c.args[0], ast.Constant) and c.args[0].value is True)
+                             for c in loads)
+                grid = any(isinstance(x, ast.Call) and isinstance(x.func, ast.Attribute) and x.func.attr == 'reshape' and
+                           'n_ilines' in U(x) and 'n_xlines' in U(x) for e2 in chain for x in ast.walk(e2))
+                facts = fm.facts_at(call) or frozenset()
+                structured = ('T', 'self.structured') in facts
+                if padded or grid or structured:
+                    ctx.ok(rule, f, 'arrays: ' + label, 'footer arrays are the full grid arrays (%s)' % (
+                        'padding requested' if padded else 'reshaped to the grid' if grid else 'structured source only'))
+                else:
+                    ctx.fail(rule, f, enclosing_stmt(loads[0]) if loads else enclosing_stmt(call),
+                             'the footer arrays come from read_variant_headers() without include_padding=True: for an irregular '
+                             'source these are the mask-compacted arrays (one entry per trace, not per grid position), shorter '
+                             'than the array length the copied header states - every header array of the output is misread',
+                             line=(loads[0].lineno if loads else call.lineno), key_extra='masked')
         verdict, text = FT.footer_order(P, f, call)
         if verdict == 'ok':
             ctx.ok(rule, f, 'order: ' + label, text)
@@ -373,6 +424,10 @@ def copies_version(ht, f):
     for e in ht.G.callees(f):
         if e.target is not None and e.target.cls is f.cls and f.cls is not None:
             funcs.append(e.target)
+    # a footer helper called by the method that builds the header (same class)
+    for e in ht.G.callers(f):
+        if e.caller.cls is f.cls and f.cls is not None and e.caller not in funcs:
+            funcs.append(e.caller)
     copy = False
     stamped = False
     for g in funcs:
